@@ -2,14 +2,14 @@ SPEC = {
     "id": "C34",
     "level": "proof",
     "lean_modules": ["PallasVerif.Props.C34", "PallasVerif.Proofs.Value"],
-    "required_theorems": ["preservation_sound", "preservation_sound_shelleyMA", "preservation_sound_conway", "byron_fees_sound",
+    "required_theorems": ["one_way_inclusion_is_unsound", "preservation_sound", "preservation_sound_shelleyMA", "preservation_sound_conway", "byron_fees_sound",
                           "mergePolicies_tot", "tot_eq_of_equal"],
     "streams": [{"name": "value", "quick": 400, "thorough": 20000}],
     "rule": "a case = 2-5 `pv` ops, half of them repeated as `pvw` = the same scenario as a correctly signed whole transaction (own keys, "
             "native-script minting policies, fixtures::synth) through validate_txs; pv = (check_preservation_of_value of one of shelley/allegra/mary/alonzo/babbage/conway through verif_hooks on a "
-            "synthesized body + UTxO: 1-3 spent values, 1-2 produced values, fee, optional mint; 17% burns around what the spent inputs hold (exactly, one past, twice, far beyond; the asset in one input or spread over every input, one or two policies, optionally next to a fresh mint of another asset of the same policy) with outputs that carry the exact rest or, for an over-burnt asset, what a clamping (0) / sign-dropping (|difference|) / wrapping (2^64 - n) / ignoring implementation would produce; 46% 'related' scenarios whose outputs "
-            "balance inputs+mint-fee exactly and are then perturbed by one unit / one asset half of the time, 12% sums crossing 2^63/2^64 "
-            "in either input order, 12% burns of assets no input holds balanced by an output of 2^64-n, 12% boundary-weighted junk) + a "
+            "synthesized body + UTxO: 1-3 spent values, 1-2 produced values, fee, optional mint; 14% name / policy asymmetries around an exactly balanced transaction (an asset name on the produced side only / on the consumed side only under a policy both sides hold, the same name under another policy, a name swapped, a zero-quantity entry on one side); 14% burns around what the spent inputs hold (exactly, one past, twice, far beyond; the asset in one input or spread over every input, one or two policies, optionally next to a fresh mint of another asset of the same policy) with outputs that carry the exact rest or, for an over-burnt asset, what a clamping (0) / sign-dropping (|difference|) / wrapping (2^64 - n) / ignoring implementation would produce; 40% 'related' scenarios whose outputs "
+            "balance inputs+mint-fee exactly and are then perturbed by one unit / one asset half of the time, 11% sums crossing 2^63/2^64 "
+            "in either input order, 11% burns of assets no input holds balanced by an output of 2^64-n, 10% boundary-weighted junk) + a "
             "Byron check_fees op half of the time (outputs at, below and above inputs - min fee; a quarter of them with redeem-only inputs); the oracle recomputes every balance "
             "with 128-bit integers; distinct = sha1 of op text; non-trivial = the case has both an accepted and a rejected check",
     "trusted_base": ["Model/Value.lean is a hand transcription of the value arithmetic of utils.rs (add_values, add_minted_value, coerce_*, "
@@ -28,5 +28,6 @@ SPEC = {
                    "(value-not-conserved ... ada); (2) the Conway None arm reverted to `i64::from(new) as u64` -> VIOLATION (also from "
                    "corpus/C34); (3) harmless: add_same_policy_assets without the clone (entry API) -> quiet; "
                    "(4) seeded C34-a (Conway burn through saturating_sub: burning more than the inputs hold clamps to 0) -> VIOLATION "
-                   "value-not-conserved era=conway asset with-burn with a concrete accepted transaction (inputs 31, mint -62, outputs 0).",
+                   "value-not-conserved era=conway asset with-burn with a concrete accepted transaction (inputs 31, mint -62, outputs 0); (5) seeded C34-b (multi_assets_are_equal as policy count + one inclusion) -> VIOLATION value-not-conserved "
+                   "... asset no-burn with an accepted transaction whose outputs carry an asset name the inputs lack.",
 }
